@@ -39,7 +39,7 @@ def reference(reqs):
     todo = [rq for rq, k in zip(reqs, keys) if k not in _REFCACHE]
     if todo:
         p = subprocess.run(
-            [sys.executable, '-B', os.path.join(HERE, 'vlib', 'c19_ref.py'), repo_root(), HERE], input=json.dumps(todo), capture_output=True, text=True, timeout=180,
+            [sys.executable, '-B', os.path.join(HERE, 'vlib', 'c19_ref.py'), repo_root(), HERE], input=json.dumps(todo), capture_output=True, text=True, timeout=600,
             env=dict(os.environ, PYTHONHASHSEED='0'),
         )  # fmt: skip
         line = [l for l in p.stdout.splitlines() if l.startswith('C19REF')]
@@ -137,7 +137,12 @@ def prop(case, r):
         reqs.append([item[2], item[3], item[4]])
         if item[0] == 'split':
             reqs.append([item[2], item[3], item[6]])
-    refs = reference(reqs)
+    try:
+        refs = reference(reqs)
+    except subprocess.TimeoutExpired:
+        # a wall-clock budget is never a verdict: count the case as inconclusive
+        r.discard('reference interpreter did not finish within 600 s')
+        return
     it = iter(refs)
     for item in runs:
         label, k, cfg = item[0], item[1], item[2]
